@@ -13021,7 +13021,10 @@ func (p *PathAttributeMpReachNLRI) Serialize(options ...*MarshallingOption) ([]b
 		nexthopAddrs = append(nexthopAddrs, n[:])
 		nexthoplen = BGP_ATTR_NHLEN_IPV6_GLOBAL
 		if p.LinkLocalNexthop.IsValid() && p.LinkLocalNexthop.IsLinkLocalUnicast() {
-			nexthopAddrs = append(nexthopAddrs, p.LinkLocalNexthop.AsSlice())
+			// like the global next hop, an IPv4 (169.254/16) address goes out IPv4-mapped:
+			// its 4 octets alone would leave the 16-octet slot half filled
+			ll := p.LinkLocalNexthop.As16()
+			nexthopAddrs = append(nexthopAddrs, ll[:])
 			nexthoplen = BGP_ATTR_NHLEN_IPV6_GLOBAL_AND_LL
 		}
 	} else if p.Nexthop.IsValid() {
